@@ -52,7 +52,7 @@ def run(ctx, tier):
         check(ctx, fxs[name])
 
 
-def check_decoder_copies(ctx, fx):
+def check_decoder_copies(ctx, fx, rule="Q5"):
     """Q5.  In form_urlencoded_decode every single-byte store to the output either writes the constant ' ' where the
     byte at the cursor is known to be '+', or copies the byte at the cursor where a dominating test (on the cursor as it
     stands) tells which byte it is or that it is not '+'.  A byte copied without such a test may be a '+', which the
@@ -87,7 +87,7 @@ def check_decoder_copies(ctx, fx):
                 if v is not None:
                     if v == 32:
                         n += 1
-                        ctx.check("Q5", "form_urlencoded_decode: `%s`" % st.get("text", "").strip()[:40], 43 in known_eq,
+                        ctx.check(rule, "form_urlencoded_decode: `%s`" % st.get("text", "").strip()[:40], 43 in known_eq,
                                   "written where the cursor byte is '+'",
                                   "a space is written where the byte at the cursor is not known to be '+'", where=where)
                     continue
@@ -97,12 +97,12 @@ def check_decoder_copies(ctx, fx):
                     continue        # a decoded value ((hi << 4) | lo)
                 n += 1
                 ok = any(k != 43 for k in known_eq) or 43 in known_ne
-                ctx.check("Q5", "form_urlencoded_decode: `%s`" % st.get("text", "").strip()[:40], ok,
+                ctx.check(rule, "form_urlencoded_decode: `%s`" % st.get("text", "").strip()[:40], ok,
                           "the copied byte was tested (%s)" % ("== %s" % sorted(known_eq) if known_eq else "!= '+'"),
                           "the byte at the cursor is copied verbatim although no dominating test (on the cursor as it stands) tells "
                           "that it is not '+': a '+' reaching this statement stays a '+' instead of becoming a space",
                           where=where)
-    ctx.floor("Q5", n, 2, "single-byte stores of the decoder")
+    ctx.floor(rule, n, 2, "single-byte stores of the decoder")
 
 
 def check_set(ctx, fx):
